@@ -313,3 +313,60 @@ func ZZ_C09_ConcurrentRegister() {
 	zzAssert(c.MaxRevReplica != hosts[0], "C09.concurrent.dead-replica-still-leader")
 	zzReach("C09.concurrent.done")
 }
+
+// C09 (a replica that registered after the leader was signalled is not passed over for
+// good): two replicas register and one of them is signalled; a third registers with any
+// revision count while the leader has not started yet; the leader's registration loop
+// times out and it registers again.  After that registration the replica that is allowed
+// to start - and was signalled last - holds the highest revision count of the three (all
+// alive, none rebuilding); a lower one cannot start the volume.
+func ZZ_C09_LeaderReRegisters() {
+	rf := 3
+	e := zzNewEnv(rf)
+	c := e.c
+	zzmodel.NoFaults = true
+	e.f.noFail = true
+	rev := make([]int64, 3)
+	for i := 0; i < 3; i++ {
+		rev[i] = zzNondetInt64("rev." + zzHosts[i])
+		zzAssume(zzAnd(rev[i] >= 0, rev[i] < 1<<40))
+	}
+	zzAssume(zzAnd(rev[0] != rev[1], zzAnd(rev[1] != rev[2], rev[0] != rev[2])))
+	last := ""
+	e.f.onSignal = func(target, action string) {
+		if action == "start" {
+			last = target
+		}
+	}
+	reg := func(i int) {
+		c.RegisterReplica(types.RegReplica{Address: zzHosts[i], UUID: "uuid-" + zzHosts[i], RevCount: rev[i], RepType: "Backend", RepState: "closed"})
+	}
+	reg(0)
+	reg(1)
+	leader := c.MaxRevReplica
+	zzAssume(c.StartSignalled && leader != "")
+	reg(2)
+	li := 0
+	if leader == zzHosts[1] {
+		li = 1
+	}
+	if zzNondetBool("third-registers-twice") {
+		reg(2)
+	}
+	reg(li) // the standing leader registers again
+	best := 0
+	for i := 1; i < 3; i++ {
+		if rev[i] > rev[best] {
+			best = i
+		}
+	}
+	zzAssert(c.StartSignalled, "C09.reregister.no-replica-signalled-after-the-leader-registered-again")
+	zzAssert(c.MaxRevReplica == zzHosts[best], "C09.reregister.replica-allowed-to-start-is-not-the-highest-revision-one")
+	zzAssert(last == zzHosts[best], "C09.reregister.last-start-signal-not-sent-to-the-highest-revision-replica")
+	// and a lower one is refused
+	lower := (best + 1) % 3
+	zzmodel.Replicas[zzAddrs[lower]].RevCounter = rev[lower]
+	serr := c.Start(zzAddrs[lower])
+	zzAssert(serr != nil && len(c.replicas) == 0, "C09.reregister.volume-started-by-a-lower-revision-replica")
+	zzReach("C09.reregister.done")
+}
